@@ -20,6 +20,8 @@ Every item TRANSLATES a piece of the current source into a Lean term (never comp
   psf.estimate_size                -> estSizeElem, estSizeX / estSizeY (dx-only coordinates and their x / y binding)
   RichData.support_x / support_y   -> supportX / supportY (which axis length is scaled by dx)
   fttools.fourier_resample         -> resamplePre / resamplePost (shift pair), resampleOut0/1 (axis length x zoom factor)
+  RichData.r / .t, Slices polar cache, exact_x / exact_y, exact_xy -> three-valued facts richPolarBinds / slicesPolarBinds /
+                                      exact1dBinds / exact2dBinds (which coordinate reaches which argument / interpolator axis)
   Wavefront.pad2d / Wavefront.crop -> three-valued facts: every parameter of the delegated call is bound to the
                                       like-named argument (keyword or positional spelling is irrelevant)
 
@@ -1062,6 +1064,125 @@ def generate(repo):
            f'def resamplePre (dim : Int) : Int := {M}.npIfftshiftBy dim\ndef resamplePost (dim : Int) : Int := {M}.npFftshiftBy dim\n'
            f'def resampleOut0 (m n : Int) (z0 z1 : Rat) : Rat := {M}.resampleOut m z0\n'
            f'def resampleOut1 (m n : Int) (z0 z1 : Rat) : Rat := {M}.resampleOut n z1')
+
+    # ---- derived RichData / Slices members: which coordinate reaches which argument (three-valued facts)
+    def order_preserving(mod, name):
+        """does helper `name(a, b)` return `(a, b)` (its two parameters, in order) on every return?"""
+        h = get_def(mod, name)
+        pos, _ = params_of(h)
+        rets = [r for r in ast.walk(h) if isinstance(r, ast.Return)]
+        return bool(rets) and all(isinstance(r.value, ast.Tuple) and [ast.unparse(e) for e in r.value.elts] == pos[:2] for r in rets)
+
+    def origins(fn, seed):
+        """follow two coordinate values through the straight-line body of fn: {local name: tag}; identity wrappers
+        (ascontiguousarray / squeeze / asarray) and order-preserving pair helpers keep the tag; anything else drops it"""
+        tags = dict(seed)
+        keep = ('ascontiguousarray', 'squeeze', 'asarray', 'array')
+        pairs = {'optimize_xy_separable': co, 'fix_interp_pair': rd}
+
+        def tag_of(e):
+            t = ast.unparse(e)
+            if t in tags:
+                return tags[t]
+            if isinstance(e, ast.Call) and last_attr(e.func) in keep and len(e.args) == 1:
+                return tag_of(e.args[0])
+            return None
+        for st in fn.body:
+            if not isinstance(st, ast.Assign) or len(st.targets) != 1:
+                continue
+            tg, v = st.targets[0], st.value
+            if isinstance(tg, ast.Tuple) and isinstance(v, ast.Tuple) and len(tg.elts) == len(v.elts):
+                new_ = [tag_of(e) for e in v.elts]
+                for t, n_ in zip(tg.elts, new_):
+                    tags[ast.unparse(t)] = n_
+            elif isinstance(tg, ast.Tuple) and isinstance(v, ast.Call) and last_attr(v.func) in pairs and len(v.args) == 2 \
+                    and len(tg.elts) == 2 and not v.keywords:
+                if not order_preserving(pairs[last_attr(v.func)], last_attr(v.func)):
+                    raise Untranslatable(f'{last_attr(v.func)} does not return its parameters in order')
+                new_ = [tag_of(e) for e in v.args]
+                for t, n_ in zip(tg.elts, new_):
+                    tags[ast.unparse(t)] = n_
+            elif isinstance(tg, ast.Tuple) and ast.unparse(v) in tags and isinstance(tags[ast.unparse(v)], tuple):
+                for k, t in enumerate(tg.elts):                      # `ux, x = slc.x`  (coords, values)
+                    tags[ast.unparse(t)] = tags[ast.unparse(v)] + (k,)
+            else:
+                tags[ast.unparse(tg)] = tag_of(v)
+        return tags, tag_of
+
+    def verdict(got, want):
+        """True when every binding is the wanted tag, False when a wanted tag sits on the wrong parameter, None otherwise"""
+        if got == want:
+            return True
+        vals = list(want.values())
+        if all(g in vals for g in got.values()) and set(got) == set(want):
+            return False
+        return None
+
+    def rich_polar():
+        c2p = get_def(co, 'cart_to_polar')
+        res = []
+        for prop, slot in (('r', 0), ('t', 1)):
+            (fn,) = [n for n in get_def(rd, 'RichData').body if isinstance(n, ast.FunctionDef) and n.name == prop
+                     and any(ast.unparse(d) == 'property' for d in n.decorator_list)]
+            (call,) = find_calls(fn, 'cart_to_polar')
+            b = {k: ast.unparse(v) for k, v in bind_call(call, c2p).items() if k in ('x', 'y')}
+            v = verdict(b, {'x': 'self.x', 'y': 'self.y'})
+            (asg,) = [s_ for s_ in ast.walk(fn) if isinstance(s_, ast.Assign) and s_.value is call]
+            tg = [ast.unparse(t) for t in asg.targets[0].elts]
+            (ret,) = find_returns(fn)
+            if ast.unparse(ret) not in tg:
+                return None
+            res += [v, tg.index(ast.unparse(ret)) == slot]
+        return None if any(r is None for r in res) else all(res)
+    g.fact('richPolarBinds', 'prysm/_richdata.py:RichData.r,t', rich_polar)
+
+    def slices_polar():
+        fn = get_def(rd, 'Slices.check_polar_calculated')
+        (call,) = find_calls(fn, 'uniform_cart_to_polar')
+        b = {k: ast.unparse(v) for k, v in bind_call(call, get_def(co, 'uniform_cart_to_polar')).items()}
+        return verdict(b, {'x': 'self._x', 'y': 'self._y', 'data': 'self._source'})
+    g.fact('slicesPolarBinds', 'prysm/_richdata.py:Slices.check_polar_calculated', slices_polar)
+
+    def exact_1d():
+        fn = get_def(rd, 'RichData._make_interp_function_xy1d')
+        slc = [ast.unparse(s_.targets[0]) for s_ in fn.body if isinstance(s_, ast.Assign) and isinstance(s_.value, ast.Call)
+               and ast.unparse(s_.value.func) == 'self.slices']
+        if len(slc) != 1:
+            return None
+        tags, tag_of = origins(fn, {f'{slc[0]}.x': ('x',), f'{slc[0]}.y': ('y',)})
+        res = []
+        for ax in 'xy':
+            (asg,) = [s_ for s_ in ast.walk(fn) if isinstance(s_, ast.Assign) and ast.unparse(s_.targets[0]) == f'self.interpf_{ax}']
+            if not (isinstance(asg.value, ast.Call) and last_attr(asg.value.func) == 'interp1d' and len(asg.value.args) >= 2):
+                return None
+            got = {'coords': tag_of(asg.value.args[0]), 'values': tag_of(asg.value.args[1])}
+            res.append(verdict(got, {'coords': (ax, 0), 'values': (ax, 1)}) if None not in got.values() else None)
+            if got['coords'] is not None and got['values'] is not None and got['coords'][0] != ax and got['values'][0] != ax:
+                res[-1] = False                                   # the other slice feeds this interpolator
+            ex = get_def(rd, f'RichData.exact_{ax}')
+            (ret,) = find_returns(ex)
+            res.append(isinstance(ret, ast.Call) and ast.unparse(ret.func) == f'self.interpf_{ax}'
+                       and [ast.unparse(a) for a in ret.args] == [params_of(ex, skip_self=True)[0][0]])
+        return None if any(r is None for r in res) else all(res)
+    g.fact('exact1dBinds', 'prysm/_richdata.py:RichData.exact_x,exact_y', exact_1d)
+
+    def exact_2d():
+        fn = get_def(rd, 'RichData._make_interp_function_2d')
+        tags, tag_of = origins(fn, {'self.x': 'X', 'self.y': 'Y'})
+        (call,) = [c for c in ast.walk(fn) if isinstance(c, ast.Call) and last_attr(c.func) == 'RegularGridInterpolator']
+        if not (isinstance(call.args[0], ast.Tuple) and len(call.args[0].elts) == 2 and ast.unparse(call.args[1]) == 'self.data'):
+            return None
+        got = {k: tag_of(e) for k, e in zip(('axis0', 'axis1'), call.args[0].elts)}
+        res = [verdict(got, {'axis0': 'Y', 'axis1': 'X'}) if None not in got.values() else None]
+        ex = get_def(rd, 'RichData.exact_xy')
+        tags2, tag_of2 = origins(ex, {'x': 'X', 'y': 'Y'})
+        (ret,) = find_returns(ex)
+        if not (isinstance(ret, ast.Call) and ast.unparse(ret.func) == 'self.interpf_2d' and isinstance(ret.args[0], ast.Tuple)):
+            return None
+        got2 = {k: tag_of2(e) for k, e in zip(('axis0', 'axis1'), ret.args[0].elts)}
+        res.append(verdict(got2, {'axis0': 'Y', 'axis1': 'X'}) if None not in got2.values() else None)
+        return None if any(r is None for r in res) else all(res)
+    g.fact('exact2dBinds', 'prysm/_richdata.py:RichData.exact_xy', exact_2d)
 
     return g.finish()
 
